@@ -41,9 +41,12 @@ def run(ctx):
         [dict(op="write", sys=b, fmt="r", file="f"), dict(op="write", sys=a, fmt="r", file="g"), dict(op="read", file="g", ok=True, sys=a), dict(op="convert", file="f", to="g", ok=True, sys=b)],
         [dict(op="write", sys=a, fmt="c", file="f"), dict(op="convert", file="f", to="g", ok=True, sys=a), dict(op="read", file="g", ok=True, sys=a), dict(op="read", file="f", ok=True, sys=a)],
         [dict(op="read", file="f", ok=False, sys="none"), dict(op="write", sys=b, fmt="c", file="f"), dict(op="convert", file="f", to="f2", ok=True, sys=b)][:2] + [dict(op="read", file="f", ok=True, sys=b)],
+        # in-place conversion, of a compressed and of an already raw file
+        [dict(op="write", sys=a, fmt="c", file="f"), dict(op="convert", file="f", to="f", ok=True, sys=a), dict(op="read", file="f", ok=True, sys=a)],
+        [dict(op="write", sys=b, fmt="r", file="g"), dict(op="convert", file="g", to="g", ok=True, sys=b), dict(op="convert", file="g", to="f", ok=True, sys=b), dict(op="read", file="g", ok=True, sys=b)],
     ]
     beh = must + beh[:max(0, n - len(must))]
-    res = ctx.run_vh(["c11"], dict(systems=systems, behaviours=beh, dir=ctx.scratch, cli=ctx.build_cli() if not ctx.quick else ""), timeout=3400)
+    res = ctx.run_vh(["c11"], dict(systems=systems, behaviours=beh, dir=ctx.scratch, cli=ctx.build_cli()), timeout=3400)
     if len(res) != len(beh):
         raise Infra("c11 harness returned %d results for %d behaviours" % (len(res), len(beh)))
     for x in res:
